@@ -721,6 +721,8 @@ class Engine:
             return p.f['value']
         if isinstance(p, Rec) and p.t == 'setiter':
             return self.models.setiter_deref(st, p, n, fr)
+        if isinstance(p, Rec) and p.t == 'smapiter':
+            return self.models.smapiter_deref(st, p, n, fr)
         raise Unsupported('dereference of %r at %s' % (p, self.where(n, fr)))
 
     def ev_ImplicitCastExpr(self, n, st, fr):
@@ -746,7 +748,8 @@ class Engine:
             v = self.rv(sub, st, fr)
             return self.float_to_int(st, v, TY.of_node(n), n, fr)
         if ck == 'FloatingCast':
-            return self.rv(sub, st, fr)
+            v = self.rv(sub, st, fr)
+            return self.float_narrow(st, v, TY.of_node(n), TY.of_node(sub))
         if ck == 'IntegralCast':
             v = self.rv(sub, st, fr)
             if z3.is_bool(v): v = z3.If(v, z3.IntVal(1), z3.IntVal(0))
@@ -767,6 +770,32 @@ class Engine:
             v = self.rv(sub, st, fr)
             return z3.If(v, z3.IntVal(1), z3.IntVal(0))
         raise Unsupported('cast kind %s at %s' % (ck, self.where(n, fr)))
+
+    FLOAT_RANK = {'float': 0, 'double': 1, 'long double': 2}
+
+    def float_narrow(self, st, v, t, src):
+        """double -> float (or long double -> double) rounds: the result is the image of the value under a rounding function that moves it by
+        at most a relative 2^-24 (2^-53); widening conversions and values exactly representable in the target are unchanged.
+        (normal range only: overflow to infinity and the subnormal range are not modelled)"""
+        if not is_z3(v) or not z3.is_real(v): return v
+        if t.kind != 'real' or src is None or src.kind != 'real': return v
+        if self.FLOAT_RANK.get(t.name, 1) >= self.FLOAT_RANK.get(src.name, 1): return v
+        import fractions, struct
+        sv = z3.simplify(v)
+        if z3.is_rational_value(sv):
+            fr_ = fractions.Fraction(sv.numerator_as_long(), sv.denominator_as_long())
+            if t.name == 'float':
+                try: back = fractions.Fraction(struct.unpack('f', struct.pack('f', float(fr_)))[0])
+                except OverflowError: back = None
+            else:
+                back = fractions.Fraction(float(fr_))
+            if back is not None and back == fr_: return v
+        eps = z3.RealVal(fractions.Fraction(1, 2 ** 24 if t.name == 'float' else 2 ** 53))
+        rnd = self.uf('round_to_' + t.name.replace(' ', '_'), R, R)
+        r = rnd(v)
+        absv = z3.If(v >= 0, v, -v)
+        st.pc.append(z3.And(r - v <= absv * eps, v - r <= absv * eps))
+        return r
 
     def float_to_int(self, st, v, t, n, fr):
         if z3.is_int(v): return v
@@ -991,6 +1020,7 @@ class Engine:
         r = self.arith(op, a, b, ct, st, n, fr)
         lt = TY.of_node(a_n)
         if lt.kind == 'int' and z3.is_real(r): r = self.float_to_int(st, r, lt, n, fr)
+        if lt.kind == 'real' and ct.kind == 'real': r = self.float_narrow(st, r, lt, ct)
         self.store(st, lv, r)
         return lv
 
